@@ -143,4 +143,43 @@ theorem updateObject_array_allTO {H : Bytes → Str} (hH : HexOut H) {src : Src}
       rw [hwin] at hw1; cases hw1
       exact ⟨_, hto1'⟩
 
+/-- **`delete_object` on an array descriptor keeps `AllTO`** (its flattened key left the owner: a deletion is
+    recorded, which reads as the empty full descriptor) -/
+theorem deleteObject_allTO {H : Bytes → Str} (hH : HexOut H) {src : Src} {st st' : DState} {u : Str}
+    {rv : Option Str} (htree : ∀ t, st.treeOf u = some t → TreeOK t)
+    (hall : ∀ t, st.treeOf u = some t → AllTO src st t)
+    (h : deleteObject H st u = .ok (st', rv)) : ∀ t', st'.treeOf u = some t' → AllTO src st' t' := by
+  unfold deleteObject at h
+  cases htu : st.treeOf u with
+  | none =>
+    simp only [htu, Res.ok.injEq, Prod.mk.injEq] at h
+    obtain ⟨rfl, _⟩ := h
+    intro t' ht'; rw [htu] at ht'; cases ht'
+  | some t =>
+    have ht := htree t htu
+    simp only [htu] at h
+    cases hw : t.winner with
+    | none => simp [hw] at h
+    | some w =>
+      simp only [hw] at h
+      by_cases hc : (!w.isDeleted && !w.isResolved) = true
+      · simp only [hc, if_true, Res.ok.injEq, Prod.mk.injEq] at h
+        obtain ⟨rfl, _⟩ := h
+        intro t' ht'
+        rw [C04b.treeOf_withTree_self] at ht'; cases ht'
+        have hfresh := C04b.child_fresh ht hw (r := Rev.del H w) rfl (C04b.upd_not_resolved H _ w (by decide))
+        obtain ⟨_, _, hok⟩ := C04b.add_del_becomes_winner hH ht hw
+        have hent : (t.add (Rev.del H w) (some w) true).1.entries = t.entries ++ [⟨Rev.del H w, some w, true⟩] := by
+          rw [C15.add_entries, hfresh]; rfl
+        refine allTO_step (hall t htu) hent ht.keys hok.keys ht.closed
+          (fun r x hx => by rw [C04b.readObject_withTree]; exact hx) ?_
+        intro e he
+        simp only [List.mem_singleton] at he
+        subst he
+        exact ⟨[], .full (C08b.readDesc_deleted src _ (by simp [Rev.del, Rev.upd, Rev.new, Rev.isDeleted]))⟩
+      · simp only [hc, Bool.false_eq_true, if_false, Res.ok.injEq, Prod.mk.injEq] at h
+        obtain ⟨rfl, _⟩ := h
+        intro t' ht'; rw [htu] at ht'; cases ht'
+        exact hall t htu
+
 end Melda.Props.C01f
